@@ -24,13 +24,16 @@ for (pid, var), r in sorted(res.items()):
         continue
     dst = os.path.join(V, "seeded", pid, var)
     os.makedirs(dst, exist_ok=True)
-    shutil.copy(os.path.join(src, "patch.diff"), dst)
-    shutil.copy(os.path.join(src, "demo.py"), dst)
+    if os.path.abspath(src) != os.path.abspath(dst):
+        shutil.copy(os.path.join(src, "patch.diff"), dst)
+        shutil.copy(os.path.join(src, "demo.py"), dst)
     meta = {}
     try:
         meta = json.load(open(os.path.join(src, "meta.json")))
     except Exception:
         pass
+    if "confirmed_by_me" in meta and "first_campaign" not in meta:
+        meta["first_campaign"] = meta["confirmed_by_me"]          # outcome when the change was first tried
     meta.update(property=pid, variant=var,
                 confirmed_by_me=dict(
                     ran=["scratch copy of /repo under /var/tmp (removed afterwards)", "demo.py on the clean copy -> exit %d" % r["demo_clean"],
